@@ -270,7 +270,12 @@ impl Substream {
             substream,
             codec,
             substream_id,
-            read_buffer: BytesMut::zeroed(1024),
+            // `Identity(n)` reads a whole frame into `read_buffer[..n]`, so the initial buffer
+            // must be able to hold one frame.
+            read_buffer: BytesMut::zeroed(match codec {
+                ProtocolCodec::Identity(payload_size) => std::cmp::max(payload_size, 1024),
+                _ => 1024,
+            }),
             offset: 0usize,
             pending_frames: VecDeque::new(),
             current_frame_size: None,
